@@ -4,14 +4,28 @@ of one query text (+ the bucket ids existing at that moment), so any dependence 
 ran before it is a disagreement, and - through the expectation each query op carries - a failing input.
 
 A session is a JSON-able list of ops (this is also the replay format):
-    ["datastore", name, storage]            a further Datastore ("main" = Impl.ds always exists); storage memory | sqlite
+    ["datastore", name, storage(, shares)]  a further Datastore ("main" = Impl.ds always exists); storage memory | sqlite |
+                                            sqlite-file (a file of its own, every write committed at once); shares = name
+                                            of an earlier datastore: the new one is a SECOND Datastore object over the
+                                            same store (the same MemoryStorage object / a second connection to the file)
     ["create", ds, bucket id, events(, hostname)]   events = [[offset from 2020-01-01T00:00Z in us, duration in us, data], ...];
                                             hostname of the bucket's metadata, default "h1"
     ["delete", ds, bucket id]
-    ["query", ds, text, expectation(, [query name, start, end of the query period as offsets in us])]
-                                            default name / period: "q-name", 2020-01-01Z .. 2020-01-02Z; expectation = {} | {"names": [bucket ids]} (value when all of them
-                                            exist in ds at that point, else FunctionError - computed from the
-                                            ops, never asked of the tree under test) | {"class": c} | {"value": canon}
+    ["query", ds, text, expectation(, context(, options))]
+                                            context = [query name, start, end of the query period] | null; an edge of the
+                                            period is an offset from 2020-01-01T00:00Z in us or an ISO 8601 text (naive
+                                            when it carries no offset); default "q-name", 2020-01-01Z .. 2020-01-02Z;
+                                            expectation = {} | {"names": [bucket ids]} (value when all of them exist in the
+                                            STORE of ds at that point - whichever Datastore object put them there -, else
+                                            FunctionError; computed from the ops, never asked of the tree under test) |
+                                            {"class": c} | {"value": canon};
+                                            options = {"thread": name of the worker thread the query runs on (it stays alive
+                                            between its queries; default: the main thread), "env": process-level settings in
+                                            force while it runs (harness/c17_impl.py `environment`: logging, recursionlimit,
+                                            warnings, tz, int_digits)}
+    ["repeat", n, [op, ...]]                the ops n times over (long runs in a short replay file)
+
+A query that does not come back within the time limit never meets its expectation, whatever that is.
 
 `python -m harness.c17_session <file.json>` replays {"ops": [...]} in a FRESH process, prints every query's
 canonical outcome and exits 1 when the LAST query's outcome differs from its expectation (what `minimise`
@@ -94,7 +108,12 @@ class Session:
         impl = self.impl
         if op[0] == "datastore":
             if op[1] not in self.dss:
-                self.dss[op[1]] = impl.new_datastore(op[2])
+                self.dss[op[1]] = impl.new_datastore(op[2], shares=self.dss[op[3]] if len(op) > 3 and op[3] else None)
+            return None
+        if op[0] == "repeat":
+            for _ in range(op[1]):
+                for sub in op[2]:
+                    self.apply(sub)
             return None
         ds = self.dss[op[1]]
         if op[0] == "create":
@@ -105,16 +124,31 @@ class Session:
             return None
         assert op[0] == "query", op
         want = self.expectation(op)
-        r = impl.run(op[2], ds=ds, ctx=op[4] if len(op) > 4 else None)
+        opts = op[5] if len(op) > 5 and op[5] else {}
+        r = impl.run(op[2], ds=ds, ctx=op[4] if len(op) > 4 else None, thread=opts.get("thread"), env=opts.get("env"))
         return r, ds, impl.buckets_of(ds), want
 
     def holds(self, r, want):
         """Does the query's outcome meet its by-construction expectation?"""
+        if r["outcome"][0] in ("timeout", "recursion"):
+            return False
         if want is None:
             return True
         if want[0] == "class":
             return outcome_key(r) == want[1]
         return r["outcome"][0] == "value" and canon(self.impl, r["outcome"][1]) == want[1]
+
+
+def unroll(ops):
+    """(op, the session up to and including it - still in the compact form) for every op of a session, the ops
+    of a repeat block one by one."""
+    for i, op in enumerate(ops):
+        if op[0] != "repeat":
+            yield op, ops[:i + 1]
+            continue
+        for k in range(op[1]):
+            for j, sub in enumerate(op[2]):
+                yield sub, ops[:i] + ([["repeat", k, op[2]]] if k else []) + op[2][:j + 1]
 
 
 def replay_in_fresh_process(ops, timeout=120):
@@ -169,10 +203,15 @@ def main(argv):
             ok = s.holds(r, want)
             last = ok
             print(json.dumps({"ds": op[1], "query": op[2], "buckets": have, "expected": want, "observed": got, "ok": ok})[:2000])
+    sys.stdout.flush()
+    rc = 0
     if last is False:
         print("LAST QUERY MISSES ITS EXPECTATION")
-        return 1
-    return 0
+        rc = 1
+    if s.impl.hung:         # a worker thread that never came back: do not wait for it (nor for what it holds)
+        sys.stdout.flush()
+        os._exit(rc)
+    return rc
 
 
 if __name__ == "__main__":
